@@ -16,7 +16,7 @@ LEVEL_NOTE = ("Trusted: Lean kernel (+ standard axioms); the hand-written model 
               "arithmetic / concatenation is checked on the implementation's results in C15/C16 and proved there for the model.")
 TECHNIQUE = "Lean 4 proof of decode∘encode = id and XOR decoder = decode; model/implementation correspondence"
 DESIGN_REF = "7"
-LEAN_MODULES = ["NpsVerif.Props.C14"]
+LEAN_MODULES = ["NpsVerif.Props.C14", "NpsVerif.Props.C14B"]
 KERNELS = ()
 RULE = ("cases = 1-D array (all arrays over a 3-letter alphabet up to length 5 quick / 7 thorough, plus random arrays with long runs "
         "up to length 60) x dtype (letters mapped to the dtype's extremes, NaN, -0.0, or to NEIGHBOURING values such as 2**63 / "
